@@ -365,7 +365,14 @@ func (t *Topic) Close() error {
 }
 
 func (t *Topic) exit(deleted bool) error {
-	if !atomic.CompareAndSwapInt32(&t.exitFlag, 0, 1) {
+	// the flag is set under the write lock: PutMessage(s) holds the read lock
+	// from its exitFlag test to its queue write, so no publisher that passed
+	// the test is still writing once the flag is set, and every later one sees
+	// it - nothing can land in memoryMsgChan after flush() below has drained it
+	t.Lock()
+	swapped := atomic.CompareAndSwapInt32(&t.exitFlag, 0, 1)
+	t.Unlock()
+	if !swapped {
 		return errors.New("exiting")
 	}
 
